@@ -65,6 +65,10 @@ def main():
                 n = c.nshards(tier)
                 for i in range(n):
                     jobs.append(('run', c.name, i, n))
+                if c.fuzz is not None and not os.environ.get('VERIF_NO_FUZZ'):
+                    nf = c.fuzz[2] if tier == 'quick' else c.fuzz[3]
+                    for i in range(nf):
+                        jobs.append(('fuzz', c.name, i, nf))
         results, herr = run_jobs(jobs, pid, tier, seed, work, env, args.jobs, t0 + timeout)
         rc = report(pid, tier, seed, mod, clauses, jobs, results, herr, t0,
                     write_evidence=not (args.no_evidence or args.replay or args.clause))
@@ -82,8 +86,8 @@ def run_jobs(jobs, pid, tier, seed, work, env, maxjobs, deadline):
         while pending and len(running) < maxjobs:
             idx, job = pending.pop(0)
             out = os.path.join(work, 'r%d.json' % idx)
-            if job[0] == 'run':
-                cmd = [PY, '-W', 'ignore', '-m', 'vp.shard', 'run', pid, job[1], str(job[2]), str(job[3]),
+            if job[0] in ('run', 'fuzz'):
+                cmd = [PY, '-W', 'ignore', '-m', 'vp.shard', job[0], pid, job[1], str(job[2]), str(job[3]),
                        tier, str(seed), out]
             else:
                 cmd = [PY, '-W', 'ignore', '-m', 'vp.shard', 'replay', pid, job[1], out]
@@ -134,7 +138,7 @@ def report(pid, tier, seed, mod, clauses, jobs, results, herr, t0, write_evidenc
                                          'excluded': collections.Counter(), 'known_findings_hit': collections.Counter(),
                                          'samples': [], 'shards': 0})
         d['evaluations'] += r['evaluations']
-        d['shards'] += 1 if job[0] == 'run' else 0
+        d['shards'] += 1 if job[0] in ('run', 'fuzz') else 0
         d['shard_wall_max'] = max(d.get('shard_wall_max', 0.0), r.get('wall_s', 0.0))
         if r.get('slowest', [0])[0] > d.get('slowest', [0])[0]:
             d['slowest'] = r['slowest']
@@ -160,12 +164,12 @@ def report(pid, tier, seed, mod, clauses, jobs, results, herr, t0, write_evidenc
         h = np.unique(np.concatenate(d['hashes'])) if d['hashes'] else np.array([], dtype=np.uint64)
         allhash.append(h)
         total_eval += d['evaluations']
-        c = next((c for c in mod.CLAUSES if c.name == name), None)
+        c = next((c for c in mod.CLAUSES if c.name == name.split('~')[0]), None)
         cov_clauses[name] = {
             'evaluations': d['evaluations'],
             'distinct_nontrivial': int(h.size),
             'nontrivial_rule': c.nt_rule if c else '',
-            'exhaustive': bool(c.exhaustive and '_budget_exhausted' not in d['classes']) if c else False,
+            'exhaustive': bool(c.exhaustive and '_budget_exhausted' not in d['classes'] and '~' not in name) if c else False,
             'classes': dict(sorted(d['classes'].items())),
             'excluded': dict(d['excluded']),
             'known_findings_hit': dict(d['known_findings_hit']),
@@ -213,7 +217,7 @@ def report(pid, tier, seed, mod, clauses, jobs, results, herr, t0, write_evidenc
                 'distinct_nontrivial': distinct,
                 'rule': getattr(mod, 'RULE', ''),
                 'samples': samples,
-                'exhaustive': bool(cov_clauses) and all(c['exhaustive'] for c in cov_clauses.values()),
+                'exhaustive': bool(cov_clauses) and all(c['exhaustive'] for n_, c in cov_clauses.items() if '~' not in n_),
                 'clauses': cov_clauses,
                 'replay_files_rerun': replayed,
                 'harness_errors': len(herr),
